@@ -2,6 +2,7 @@
   Live20 — no block raises under H1 and H2 (`NcCfg`), and hence the run reaches `is_finished()`
   with nothing raised: the assembly of Live15 (order facts), Live17 (the raise sites) and Live19.
 -/
+import TopsimProofs.Fit2
 import TopsimProofs.Live17g
 import TopsimProofs.Live15b2
 import TopsimProofs.Live15c2
@@ -15,7 +16,9 @@ section
 variable {env : SimEnv} {s0 : Sys}
 
 theorem ncOrder (N : NcCfg env s0) : NcOrder env s0 where
-  prov := fun n hc _ _ hpk hpp ha _ _ hk hpc => nc_provIngest_fits N n hc hpk hpp ha hk hpc
+  -- F14: from the accounting invariant `sim_fit` (Fit2), no `OneAdmission` hypothesis
+  prov := fun n _ _ _ _ hpp ha _ _ hk hpc =>
+    sim_provIngest_fits env s0 N.hw N.hb0.1 _ (simAt_reach env s0 n) (proc?_some hpp).1 ha hk hpc
   alloc := fun n hc _ _ hpk hpp ha _ _ _ _ _ hk hpc => nc_allocTask_avail N n hc hpk hpp ha hk hpc
 
 /-- **No block raises** (queue algorithm; H1: no tiering; H2: one admission per telescope block). -/
